@@ -17,7 +17,7 @@ Definition upd_origins (l : list (list N * list id)) : list (list N * list id) :
   let l1 := match old_t with Some o => remove_origin o h l | None => l end in
   match new_t with Some q => add_origin q h l1 | None => l1 end.
 
-Hypothesis HF : TreeFacts w.
+Hypothesis H_only : forall m2, MReach T w m2 h -> m2 = m.
 Hypothesis H_reach : forall m2 i, MReach T w' m2 i <-> MReach T w m2 i.
 Hypothesis H_text : forall j, j <> h -> ref_text T w' j = ref_text T w j.
 Hypothesis H_old : ref_text T w h = old_t.
@@ -29,10 +29,7 @@ Hypothesis H_orig : m_origins x' = upd_origins (m_origins x).
 Hypothesis H_others : forall m2, m2 <> m -> option_map m_origins (model_at w' m2) = option_map m_origins (model_at w m2).
 
 Lemma h_only_in_m m2 : MReach T w m2 h -> m2 = m.
-Proof.
-  intros H2. destruct (mreach_specpath T _ _ _ H2) as (p2 & S2). destruct (mreach_specpath T _ _ _ H_h) as (p & S).
-  destruct (specpath_fun T _ _ _ _ _ _ HF S2 S) as (-> & _). reflexivity.
-Qed.
+Proof. apply H_only. Qed.
 
 Lemma refset_other m2 p r : r <> h -> (RefSet T w' m2 p r <-> RefSet T w m2 p r).
 Proof. intros Hne. unfold RefSet. rewrite H_reach, (H_text _ Hne). tauto. Qed.
@@ -102,6 +99,12 @@ End Retarget.
 (* ------------------------------------------------------------------ worlds with the same references *)
 Section Transfer.
 Variable T : tables.
+
+Lemma only_model w m h : TreeFacts w -> MReach T w m h -> forall m2, MReach T w m2 h -> m2 = m.
+Proof.
+  intros HF Hh m2 H2. destruct (mreach_specpath T _ _ _ H2) as (p2 & S2). destruct (mreach_specpath T _ _ _ Hh) as (p & S).
+  destruct (specpath_fun T _ _ _ _ _ _ HF S2 S) as (-> & _). reflexivity.
+Qed.
 
 Lemma inv05_transfer w w' :
   (forall m p r, RefSet T w' m p r <-> RefSet T w m p r) ->
